@@ -44,7 +44,7 @@ type framesScenario struct {
 	Cut      int       `json:"cut"`
 	Tail     string    `json:"tail"`
 	DoErr    bool      `json:"doerr"` // client side: HTTPClient.Do itself fails (no response at all)
-	Bidi     bool      `json:"bidi"` // handler side, stream shape: a bidi handler (results read unlatched)
+	Bidi     bool      `json:"bidi"`  // handler side, stream shape: a bidi handler (results read unlatched)
 	Trailers string    `json:"trailers"`
 	Script   []int     `json:"script"`
 	EofWith  bool      `json:"eofwith"`
